@@ -2,6 +2,8 @@ package props
 
 import (
 	"fmt"
+	"strconv"
+	"syscall"
 	"testing"
 
 	lz4 "github.com/pierrec/lz4/v4"
@@ -178,6 +180,9 @@ type c13Large struct {
 	Chunk   int    `json:"chunk"`   // bulk chunk size
 	Steps   int    `json:"steps"`   // then this many single-byte writes, comparing after each
 	PatSeed uint64 `json:"patseed"` // content pattern
+	// Single > 0 (64-bit platforms): after Start bytes, ONE Write call of this many zero bytes (an anonymous read-only mapping: no memory is
+	// touched), then the single-byte steps. A total that reaches 2^32 within one call, from fewer than 16 bytes.
+	Single uint64 `json:"single,omitempty"`
 }
 
 func runC13Large(c c13Large, rec *stat.Rec) *stat.Failure {
@@ -198,6 +203,23 @@ func runC13Large(c c13Large, rec *stat.Rec) *stat.Failure {
 		_, _ = x.Write(pat[:n])
 		m.WriteFast(pat[:n])
 		left -= n
+	}
+	if c.Single > 0 {
+		if strconv.IntSize < 64 {
+			rec.Class("large/single-write-skipped-on-32-bit")
+			return nil
+		}
+		big, err := syscall.Mmap(-1, 0, int(c.Single), syscall.PROT_READ, syscall.MAP_ANON|syscall.MAP_PRIVATE)
+		if err != nil {
+			return stat.Failf("harness-problem", "cannot map %d bytes: %v", c.Single, err)
+		}
+		n, werr := x.Write(big)
+		m.WriteFast(big)
+		_ = syscall.Munmap(big)
+		if werr != nil || uint64(n) != c.Single {
+			return stat.Failf("C13/write-count-wrong", "one Write of %d bytes after %d returned (%d, %v)", c.Single, c.Start, n, werr)
+		}
+		rec.Class("large/one-write-call-that-crosses-2^32")
 	}
 	for i := 0; i <= c.Steps; i++ {
 		rec.Eval()
@@ -322,8 +344,14 @@ func TestC13(t *testing.T) {
 func TestC13Large(t *testing.T) {
 	rec := stat.For("C13")
 	rec.SetRule(c13Rule)
-	cases := []c13Large{{Start: 1<<32 - 1, Chunk: 1 << 20, Steps: 17, PatSeed: uint64(seed)}}
+	cases := []c13Large{{Start: 1<<32 - 1, Chunk: 1 << 20, Steps: 17, PatSeed: uint64(seed)},
+		// 5 bytes, then one Write call of 2^32 - 2 bytes (total 2^32 + 3: the low 32 bits say "fewer than 16 bytes")
+		{Start: 5, Chunk: 5, Steps: 17, PatSeed: uint64(seed) + 20, Single: 1<<32 - 2}}
 	if thorough() {
+		cases = append(cases,
+			c13Large{Start: 0, Steps: 17, PatSeed: uint64(seed) + 21, Single: 1 << 32},
+			c13Large{Start: 15, Chunk: 15, Steps: 3, PatSeed: uint64(seed) + 22, Single: 1<<32 - 15},
+			c13Large{Start: 16, Chunk: 16, Steps: 3, PatSeed: uint64(seed) + 23, Single: 1<<33 - 16})
 		cases = append(cases,
 			c13Large{Start: 1<<32 - 1, Chunk: 65521, Steps: 17, PatSeed: uint64(seed) + 1},
 			c13Large{Start: 1<<32 - 1, Chunk: 4099, Steps: 17, PatSeed: uint64(seed) + 2},
